@@ -29,6 +29,16 @@ package libaudit
 // the kernel's verdict carried by an NLMSG_ERROR message
 //@ spec isAck(m syscall.NetlinkMessage) bool := m.Header.Type == syscall.NLMSG_ERROR && len(m.Data) >= 4
 //@ spec ackErrno(m syscall.NetlinkMessage) int := 0 - s32(le32(m.Data, 0))
+// Snapshot of the first message returned by Receive entry i, taken when Receive
+// returned (the receive buffer may be overwritten by later receives, the trace is not):
+// Header.Type@25, Header.Seq@27, len(Data)@31, first 32-bit word of Data@33.
+//@ spec rcvType(i int) int := envarg(i, 25)
+//@ spec rcvSeq(i int) int := envarg(i, 27)
+//@ spec rcvLen(i int) int := envarg(i, 31)
+//@ spec rcvWord0(i int) int := envarg(i, 33)
+// entry e is the kernel's ACK of request q with errno 0 / with errno n, as it was received
+//@ spec ackSnapOK(e int, q int) bool := recvOK(e) && rcvSeq(e) == q && rcvType(e) == syscall.NLMSG_ERROR && rcvLen(e) >= 4 && rcvWord0(e) == 0
+//@ spec ackSnapErr(e int, q int, n int) bool := recvOK(e) && rcvSeq(e) == q && rcvType(e) == syscall.NLMSG_ERROR && rcvLen(e) >= 4 && s32(rcvWord0(e)) == 0 - n && 1 <= n && n <= 4095
 
 //@ func libaudit.ParseNetlinkError
 //@ pure
@@ -49,17 +59,24 @@ package libaudit
 //@ ensures[C08] isNil(result1) == (result0 != nil)
 //@ ensures[C08] isNil(result1) ==> result0.Header.Seq == seq && envlen() > old(envlen()) && recvOK(envlen() - 1)
 //@ ensures[C08] isNil(result1) ==> result0.Header.Type == recvMsg(envlen() - 1).Header.Type && result0.Header.Seq == recvMsg(envlen() - 1).Header.Seq && base(result0.Data) == base(recvMsg(envlen() - 1).Data) && lo(result0.Data) == lo(recvMsg(envlen() - 1).Data) && len(result0.Data) == len(recvMsg(envlen() - 1).Data)
+//@ ensures[C08] isNil(result1) ==> rcvType(envlen() - 1) == result0.Header.Type && rcvSeq(envlen() - 1) == seq && rcvLen(envlen() - 1) == len(result0.Data) && rcvWord0(envlen() - 1) == le32(result0.Data, 0)
 //@ ensures[C08] isNil(result1) ==> (forall i int :: old(envlen()) <= i && i < envlen() - 1 && recvOK(i) ==> recvMsg(i).Header.Seq == 0 && seq != 0)
+//@ ensures[C08] forall i int :: old(envlen()) <= i && i < envlen() - 1 && recvOK(i) ==> rcvSeq(i) == 0 && seq != 0
+//@ ensures[C08] !isNil(result1) ==> !(recvOK(envlen() - 1) && rcvSeq(envlen() - 1) == seq)
 //@ ensures[C08] !isNil(result1) ==> envlen() > old(envlen()) && !(recvOK(envlen() - 1) && recvMsg(envlen() - 1).Header.Seq == seq)
 //@ ensures[C08] forall i int :: old(envlen()) <= i && i < envlen() ==> envkind(i) == kRecv()
 //@ ensures[C08] forall i int :: 0 <= i && i < old(envlen()) ==> envkind(i) == old(envkind(i)) && (forall a int :: envarg(i, a) == old(envarg(i, a))) && (forall k int :: envbyte(i, k) == old(envbyte(i, k)))
 //@ loop 0 invariant forall i int :: old(envlen()) <= i && i < envlen() - 1 && recvOK(i) ==> recvMsg(i).Header.Seq == 0 && seq != 0
 //@ loop 0 invariant receiveMore && envlen() > old(envlen()) && recvOK(envlen() - 1) ==> recvMsg(envlen() - 1).Header.Seq == 0 && seq != 0
 //@ loop 0 invariant !receiveMore ==> envlen() > old(envlen()) && recvOK(envlen() - 1) && msg.Header.Type == recvMsg(envlen() - 1).Header.Type && msg.Header.Seq == recvMsg(envlen() - 1).Header.Seq && base(msg.Data) == base(recvMsg(envlen() - 1).Data) && lo(msg.Data) == lo(recvMsg(envlen() - 1).Data) && len(msg.Data) == len(recvMsg(envlen() - 1).Data)
+//@ loop 0 invariant forall i int :: old(envlen()) <= i && i < envlen() - 1 && recvOK(i) ==> rcvSeq(i) == 0 && seq != 0
+//@ loop 0 invariant receiveMore && envlen() > old(envlen()) && recvOK(envlen() - 1) ==> rcvSeq(envlen() - 1) == 0 && seq != 0
+//@ loop 0 invariant !receiveMore ==> rcvType(envlen() - 1) == msg.Header.Type && rcvSeq(envlen() - 1) == msg.Header.Seq && rcvLen(envlen() - 1) == len(msg.Data) && rcvWord0(envlen() - 1) == le32(msg.Data, 0)
 //@ loop 0 invariant forall i int :: old(envlen()) <= i && i < envlen() ==> envkind(i) == kRecv()
 //@ loop 0 invariant forall i int :: 0 <= i && i < old(envlen()) ==> envkind(i) == old(envkind(i)) && (forall a int :: envarg(i, a) == old(envarg(i, a))) && (forall k int :: envbyte(i, k) == old(envbyte(i, k)))
 //@ loop 0 invariant envlen() >= old(envlen())
 //@ loop 1 invariant forall i int :: old(envlen()) <= i && i < envlen() && recvOK(i) ==> recvMsg(i).Header.Seq == 0 && seq != 0
+//@ loop 1 invariant forall i int :: old(envlen()) <= i && i < envlen() && recvOK(i) ==> rcvSeq(i) == 0 && seq != 0
 //@ loop 1 invariant forall i int :: old(envlen()) <= i && i < envlen() ==> envkind(i) == kRecv()
 //@ loop 1 invariant forall i int :: 0 <= i && i < old(envlen()) ==> envkind(i) == old(envkind(i)) && (forall a int :: envarg(i, a) == old(envarg(i, a))) && (forall k int :: envbyte(i, k) == old(envbyte(i, k)))
 //@ loop 1 invariant envlen() >= old(envlen())
@@ -181,12 +198,15 @@ package libaudit
 //@ spec kClose() int := envkindOf(libaudit.NetlinkSendReceiver.Close)
 //
 //@ func (*libaudit.AuditClient).GetStatus
+//@ forall-params n int, e int
 //@ requires !isNil(c.Netlink)
 //@ modifies envbytes, alloc, envlog
 //@ ensures[C16,C08] envlen() > old(envlen()) && sendIs(old(envlen()), 1000, 0)
 //@ ensures[C08] isNil(result1) == (result0 != nil)
 //@ ensures[C08] !sendOK(old(envlen())) ==> !isNil(result1)
 //@ ensures[C08] isNil(result1) ==> recvOK(envlen() - 1) && recvMsg(envlen() - 1).Header.Seq == sentSeq(old(envlen())) && recvMsg(envlen() - 1).Header.Type == 1000 && len(recvMsg(envlen() - 1).Data) >= 32
+//@ ensures[C08] sendOK(old(envlen())) && old(envlen()) < e && e < envlen() && ackSnapErr(e, sentSeq(old(envlen())), n) && (forall j int :: old(envlen()) < j && j < e && recvOK(j) ==> rcvSeq(j) == 0 && sentSeq(old(envlen())) != 0) ==> !isNil(result1) && errIs(result1, errno(n))
+//@ ensures[C08] isNil(result1) ==> exists e int :: old(envlen()) < e && e < envlen() - 1 && ackSnapOK(e, sentSeq(old(envlen())))
 //@ ensures[C16,C08] isNil(result1) ==> result0.Mask == le32(recvMsg(envlen() - 1).Data, 0) && result0.Enabled == le32(recvMsg(envlen() - 1).Data, 4) && result0.Failure == le32(recvMsg(envlen() - 1).Data, 8) && result0.PID == le32(recvMsg(envlen() - 1).Data, 12)
 //@ ensures[C16,C08] isNil(result1) ==> result0.RateLimit == le32(recvMsg(envlen() - 1).Data, 16) && result0.BacklogLimit == le32(recvMsg(envlen() - 1).Data, 20) && result0.Lost == le32(recvMsg(envlen() - 1).Data, 24) && result0.Backlog == le32(recvMsg(envlen() - 1).Data, 28)
 //@ ensures[C16,C08] isNil(result1) && len(recvMsg(envlen() - 1).Data) >= 44 ==> result0.FeatureBitmap == le32(recvMsg(envlen() - 1).Data, 32) && result0.BacklogWaitTime == le32(recvMsg(envlen() - 1).Data, 36) && result0.BacklogWaitTimeActual == le32(recvMsg(envlen() - 1).Data, 40)
@@ -195,16 +215,20 @@ package libaudit
 // slice is private to the caller (allocated here, never handed to the
 // environment), so later receives that reuse the receive buffer cannot change it.
 //@ func (*libaudit.AuditClient).GetRules
+//@ forall-params n int, e int
 //@ requires !isNil(c.Netlink)
 //@ modifies envbytes, alloc, envlog
 //@ ensures[C08] envlen() > old(envlen()) && sendIs(old(envlen()), 1013, 0)
 //@ ensures[C08] !sendOK(old(envlen())) ==> !isNil(result1)
 //@ ensures[C08] isNil(result1) ==> recvOK(envlen() - 1) && recvMsg(envlen() - 1).Header.Seq == sentSeq(old(envlen())) && recvMsg(envlen() - 1).Header.Type == syscall.NLMSG_DONE
 //@ ensures[C08] !isNil(result1) ==> len(result0) == 0
+//@ ensures[C08] sendOK(old(envlen())) && old(envlen()) < e && e < envlen() && ackSnapErr(e, sentSeq(old(envlen())), n) && (forall j int :: old(envlen()) < j && j < e && recvOK(j) ==> rcvSeq(j) == 0 && sentSeq(old(envlen())) != 0) ==> !isNil(result1) && errIs(result1, errno(n))
+//@ ensures[C08] isNil(result1) ==> exists a int :: old(envlen()) < a && a < envlen() - 1 && ackSnapOK(a, sentSeq(old(envlen())))
 //@ ensures[C08,C17] forall k int :: lo(result0) <= k && k < hi(result0) ==> !envowned(at(result0, k)) && allocated(at(result0, k)) && base(at(result0, k)) != 0
 //@ loop 0 invariant[C08,C17] forall k int :: lo(rules) <= k && k < hi(rules) ==> !envowned(at(rules, k)) && allocated(at(rules, k)) && base(at(rules, k)) != 0
 //@ loop 0 invariant envlen() > old(envlen()) && sendIs(old(envlen()), 1013, 0) && sendOK(old(envlen()))
 //@ loop 0 invariant seq == sentSeq(old(envlen()))
+//@ loop 0 invariant[C08] exists a int :: old(envlen()) < a && a < envlen() && ackSnapOK(a, seq) && (forall j int :: old(envlen()) < j && j < a && recvOK(j) ==> rcvSeq(j) == 0 && seq != 0)
 
 // WaitForPendingACKs: the pending list is consumed from the front; an ACK that
 // was read is no longer pending whatever its outcome.
